@@ -112,21 +112,24 @@ def bind(c, n_ctx, n_ts, auth, alter):
     return rt_pdu(c, make, "bind")
 
 
+NONASCII_ADDR = {10: "\u00e9", 11: "\u00fcber", 12: "49\u0661", 13: "\U0001f511k"}  # addr codes >= 10: listed non-ASCII secondary addresses
+
+
 def _ack_params(tier):
     if tier == "quick":
-        return [dict(addr=a, n_res=r, auth=au, alter=al) for (a, r) in [(0, 0), (1, 1), (2, 2), (3, 3), (4, 1), (5, 6), (6, 1), (7, 2), (9, 1)] for au in (None, 16)
-                for al in (False, True)]
-    return [dict(addr=a, n_res=r, auth=au, alter=al) for a in range(0, 10) for r in (0, 1, 2, 6) for au in (None, 1, 7, 16) for al in (False, True)]
+        return [dict(addr=a, n_res=r, auth=au, alter=al) for (a, r) in [(0, 0), (1, 1), (2, 2), (3, 3), (4, 1), (5, 6), (6, 1), (7, 2), (9, 1), (10, 1), (11, 2), (12, 0), (13, 1)]
+                for au in (None, 16) for al in (False, True)]
+    return [dict(addr=a, n_res=r, auth=au, alter=al) for a in range(0, 14) for r in (0, 1, 2, 6) for au in (None, 1, 7, 16) for al in (False, True)]
 
 
-@harness(P, per_job=True, params=_ack_params, bounds="bind_ack / alter_context_resp: secondary address of every length 0..9 (ASCII digits), 0..6 results with symbolic result code (defined values), "
-         "reason, syntax uuid and version; auth trailer absent / listed sizes", outside="non-ASCII secondary addresses", must_reach=("bind_ack",))
+@harness(P, per_job=True, params=_ack_params, bounds="bind_ack / alter_context_resp: secondary address of every length 0..9 (ASCII digits) and 4 listed non-ASCII addresses (2-, 3- and 4-byte UTF-8 sequences), 0..6 results with symbolic result code (defined values), "
+         "reason, syntax uuid and version; auth trailer absent / listed sizes", outside="other non-ASCII secondary addresses", must_reach=("bind_ack",))
 def bind_ack(c, addr, n_res, auth, alter):
     cls, pt = (_bind.AlterContextResponse, _pdu.PacketType.ALTER_CONTEXT_RESP) if alter else (_bind.BindAck, _pdu.PacketType.BIND_ACK)
     tr = trailer(c, auth)
     res = [_bind.ContextResult(c.int(f"r{i}", 0, 3), c.int(f"reason{i}", 0, 65535), U(c, f"rs{i}"), c.int(f"rv{i}", 0, (1 << 32) - 1)) for i in range(n_res)]
     hf = dict(mx=c.int("mx", 0, 65535), mr=c.int("mr", 0, 65535), ag=c.int("ag", 0, (1 << 32) - 1))
-    sec_addr = "135790246"[:addr]
+    sec_addr = NONASCII_ADDR[addr] if addr >= 10 else "135790246"[:addr]
     hd = {}
 
     def make(n):
